@@ -320,8 +320,13 @@ struct Summary {
 
 /// the property at snapshot point k (original rebuilt from its seed for every copy: no use of `Clone`)
 fn lockstep_ising(cfg: &Cfg, k: usize, m: usize) -> Result<Summary, String> {
+    lockstep_ising_with(cfg, &|| cfg.build(), k, m)
+}
+
+/// the same for a sampler produced by `build` (e.g. started from a prepared operator string)
+fn lockstep_ising_with(cfg: &Cfg, build: &dyn Fn() -> G, k: usize, m: usize) -> Result<Summary, String> {
     let fresh = |k: usize| {
-        let mut g = cfg.build();
+        let mut g = build();
         run_steps(&mut g, k, cfg.beta);
         g
     };
@@ -491,8 +496,12 @@ fn obs_generic(q: &Q, energy: f64) -> Obs {
 }
 
 fn lockstep_generic(cfg: &Cfg, loops: bool, k: usize, m: usize) -> Result<Summary, String> {
+    lockstep_generic_with(cfg, &|| build_generic(cfg, loops), k, m)
+}
+
+fn lockstep_generic_with(cfg: &Cfg, build: &dyn Fn() -> Q, k: usize, m: usize) -> Result<Summary, String> {
     pool_reset_log();
-    let mut orig = build_generic(cfg, loops);
+    let mut orig = build();
     for _ in 0..k {
         orig.timesteps(1, cfg.beta);
     }
@@ -527,6 +536,83 @@ fn lockstep_generic(cfg: &Cfg, loops: bool, k: usize, m: usize) -> Result<Summar
         grew,
         rvb_succ: false,
     })
+}
+
+
+// ------------------------------------------------------------------------------------------------
+// samplers started from a PREPARED operator string with legal but non-canonical ops: constant single-site ops
+// written as `FastOp::offdiagonal(v, bond, s, s, true)` (inputs == outputs, variant Offdiagonal) exactly as
+// /repo/tests/check_rvb_crash.rs writes them.  A snapshot must store the variant, not re-derive it: `is_diagonal()`
+// decides whether the diagonal update may remove the op.
+// ------------------------------------------------------------------------------------------------
+fn prepared_state(nvars: usize, seed: u64) -> Vec<bool> {
+    (0..nvars).map(|v| (seed >> v) & 1 == 1).collect()
+}
+
+/// `first_const_bond + v` is the bond number of the constant single-site op of variable v
+fn prepared_ops(nvars: usize, first_const_bond: usize, state: &[bool], seed: u64) -> Vec<(usize, qmc::sse::fast_ops::FastOp)> {
+    use qmc::sse::fast_ops::FastOp;
+    use smallvec::smallvec;
+    let ps = [0usize, 1, 3, 4, 6, 7];
+    ps.iter()
+        .enumerate()
+        .map(|(i, p)| {
+            let v = (i + seed as usize) % nvars;
+            let s = state[v];
+            // every third op in canonical diagonal form, the others as Offdiagonal(s, s)
+            let op = if i % 3 == 2 {
+                FastOp::diagonal(smallvec![v], first_const_bond + v, smallvec![s], true)
+            } else {
+                FastOp::offdiagonal(smallvec![v], first_const_bond + v, smallvec![s], smallvec![s], true)
+            };
+            (*p, op)
+        })
+        .collect()
+}
+
+fn build_prepared_ising(cfg: &Cfg) -> G {
+    let nvars = cfg.edges.iter().map(|((a, b), _)| *a.max(b)).max().unwrap() + 1;
+    let nedges = cfg.edges.len();
+    let state = prepared_state(nvars, cfg.seed);
+    let st = state.clone();
+    let seed = cfg.seed;
+    let mut g = G::new_with_rng_with_manager_hook(
+        cfg.edges.clone(),
+        cfg.transverse,
+        cfg.longitudinal,
+        cfg.cutoff.max(9),
+        SplitMix64::new(cfg.seed),
+        Some(state),
+        move |nv, _nbonds| FastOps::new_from_ops(nv, prepared_ops(nv, nedges, &st, seed)),
+    );
+    if cfg.rvb {
+        g.set_run_rvb(true);
+    }
+    if cfg.heatbath {
+        g.set_enable_heatbath(true);
+    }
+    g
+}
+
+fn build_prepared_generic(cfg: &Cfg, loops: bool) -> Q {
+    let nvars = cfg.edges.iter().map(|((a, b), _)| *a.max(b)).max().unwrap() + 1;
+    let nedges = cfg.edges.len();
+    let state = prepared_state(nvars, cfg.seed);
+    let st = state.clone();
+    let seed = cfg.seed;
+    let mut q = Q::new_with_state_with_manager_hook(nvars, SplitMix64::new(cfg.seed), state, loops, move |nv| {
+        FastOps::new_from_ops(nv, prepared_ops(nv, nedges, &st, seed))
+    });
+    for ((a, b), j) in &cfg.edges {
+        q.make_diagonal_interaction_and_offset(vec![-j, *j, *j, -j], vec![*a, *b]).unwrap();
+    }
+    for v in 0..nvars {
+        let t = cfg.transverse;
+        q.make_interaction(vec![t, t, t, t], vec![v]).unwrap();
+    }
+    q.set_do_heatbath(cfg.heatbath);
+    q.set_cutoff(9.max(nvars));
+    q
 }
 
 // ------------------------------------------------------------------------------------------------
@@ -1068,4 +1154,44 @@ fn main() {
     }
     stat("ising_nd.snapshot_points", nd_cases);
     stat("pool.return_events_checked_clean", POOL_RETURNS.with(|c| c.get()));
+
+    // samplers started from a prepared string with non-canonical (Offdiagonal(s, s)) constant ops: k = 0..3
+    let nprep = if a.thorough { 24 } else { 8 };
+    let mut prep_offdiag_at_snapshot = 0u64;
+    for i in 0..nprep {
+        let mut cfg = gen_cfg(&mut gen, i, a.thorough);
+        cfg.longitudinal = 0.0; // keeps bond numbering identical for both samplers (edges, then one constant op per variable)
+        let loops = i % 2 == 0;
+        for k in 0..=3usize {
+            let r = catch(|| {
+                let g = {
+                    let mut g = build_prepared_ising(&cfg);
+                    run_steps(&mut g, k, cfg.beta);
+                    g
+                };
+                let offd = show_slots(g.get_manager_ref()).matches(";O;").count() as u64;
+                lockstep_ising_with(&cfg, &|| build_prepared_ising(&cfg), k, m).map(|s| (s, offd))
+            });
+            let (nt, verdict) = match r {
+                Ok(Ok((s, offd))) => {
+                    prep_offdiag_at_snapshot += (offd > 0) as u64;
+                    (s.nontrivial, Ok(()))
+                }
+                Ok(Err(e)) => (true, Err(e)),
+                Err(p) => (true, Err(format!("panic: {}", p))),
+            };
+            let out = if verdict.is_ok() { "same" } else { "diff" };
+            emit(nt, &format!("prepared-ising {} k={} m={}", cfg.show(), k, m), out, Some(verdict));
+            let r = catch(|| lockstep_generic_with(&cfg, &|| build_prepared_generic(&cfg, loops), k, m));
+            let (nt, verdict) = match r {
+                Ok(Ok(s)) => (s.nontrivial, Ok(())),
+                Ok(Err(e)) => (true, Err(e)),
+                Err(p) => (true, Err(format!("panic: {}", p))),
+            };
+            let out = if verdict.is_ok() { "same" } else { "diff" };
+            emit(nt, &format!("prepared-generic loops={} {} k={} m={}", loops as u8, cfg.show(), k, m), out, Some(verdict));
+        }
+    }
+    stat("prepared.configs", nprep);
+    stat("prepared.ising_snapshots_holding_offdiagonal_ops", prep_offdiag_at_snapshot);
 }
